@@ -113,6 +113,13 @@ class PartialFn:
         self.fn, self.args, self.kwargs = fn, list(args), dict(kwargs)
 
 
+class StarArg:
+    """*seq in a call where seq is a heap sequence of unknown length (only assumed library contracts accept it)"""
+
+    def __init__(self, sv):
+        self.sv = sv
+
+
 class SuperProxy:
     def __init__(self, self_val, after_cls):
         self.self_val, self.after_cls = self_val, after_cls
